@@ -725,7 +725,9 @@ class FGen:
         return {"phases": phases, "initial": names[0], "state": state, "t0": rng.choice([0.0, 0.5]),
                 "dt0": rng.choice([0.5, 0.25]), "funcs": self.funcs, "run": {"max_steps": rng.randint(1, 5)},
                 "event_cap": 100, "ncalls": rng.randint(1, 5),
-                "subscripts_elementwise_abs_result": bool(self.allow_onebased_subscript and self.onebased)}
+                "subscripts_elementwise_abs_result": bool(self.allow_onebased_subscript and self.onebased),
+                # (every fourth module: the flat user vectors are declared as columns (n, 1) or rows (1, n))
+                "ut_shape": rng.choice([None, None, None, None, None, None, "col", "row"])}
 
 # }}}
 
@@ -780,11 +782,21 @@ def fnum(v):
     return f"({s})"
 
 
+def ut_dims(script, n):
+    """Shape of a flat user vector of n entries in the Fortran type map: script["ut_shape"] makes it a column
+    (n, 1) or a row (1, n) -- a multi-dimensional user type whose axes have different extents."""
+    sh = script.get("ut_shape")
+    return (n, 1) if sh == "col" else (1, n) if sh == "row" else (n,)
+
+
 def user_type_map(script):
     import dagrt.codegen.fortran as f
-    m = {VT: f.ArrayType((VTN,), f.BuiltinType("real (kind=8)"), index_vars="ivt")}
+    d1, d2 = ut_dims(script, VTN), ut_dims(script, VT2N)
+    m = {VT: f.ArrayType(d1, f.BuiltinType("real (kind=8)"),
+                         index_vars="ivt" if len(d1) == 1 else ("ivt", "jvt"))}
     if any(s.get("type") == VT2 for s in script["funcs"].values()):
-        m[VT2] = f.ArrayType((VT2N,), f.BuiltinType("real (kind=8)"), index_vars="iwt")
+        m[VT2] = f.ArrayType(d2, f.BuiltinType("real (kind=8)"),
+                             index_vars="iwt" if len(d2) == 1 else ("iwt", "jwt"))
     if has_struct(script):
         m[AT] = f.StructureType("fast_t", (
             ("s", f.BuiltinType("real (kind=8)")),
@@ -920,7 +932,8 @@ def driver_source(g, dag, script, ncalls, heap_state=False):
             A(f"  type(fast_t) :: in_{fn}")
             init_args.append(f"{fn}=in_{fn}")
         elif isinstance(val, np.ndarray):
-            A(f"  real(8), dimension({len(val)}) :: in_{fn}")
+            dims = ut_dims(script, len(val)) if kinds[ir].startswith("ut:") else (len(val),)
+            A(f"  real(8), dimension({', '.join(map(str, dims))}) :: in_{fn}")
             init_args.append(f"{fn}=in_{fn}")
         else:
             init_args.append(f"{fn}={fnum(val)}")
@@ -947,7 +960,11 @@ def driver_source(g, dag, script, ncalls, heap_state=False):
             A(f"  in_{fn}%s = {fnum(val.tolist()[0])}")
             A(f"  in_{fn}%q = (/ " + ", ".join(fnum(x) for x in val.tolist()[1:]) + " /)")
         elif isinstance(val, np.ndarray):
-            A(f"  in_{fn} = (/ " + ", ".join(fnum(x) for x in val.tolist()) + " /)")
+            lit = "(/ " + ", ".join(fnum(x) for x in val.tolist()) + " /)"
+            dims = ut_dims(script, len(val)) if kinds[ir].startswith("ut:") else (len(val),)
+            if len(dims) > 1:
+                lit = f"reshape({lit}, (/ {', '.join(map(str, dims))} /))"
+            A(f"  in_{fn} = {lit}")
     A("  call vf_initialize(" + ", &\n    ".join(init_args) + ")")
     A(f"  do k = 1, {ncalls}")
     A("    call vf_run(dagrt_state=stp)")
